@@ -2,7 +2,7 @@
 \* (3/9: same first 22 bytes and length, other last byte; 1/10: same head, one byte shorter; 5/11: twins), in both
 \* directions, with and without a reconfiguration in between
 SPECIFICATION Spec
-CONSTANTS QCap = 2 MaxPend = 1 MaxOps = 6
+CONSTANTS QCap = 2 MaxPend = 1 MaxOps = 5
           NoInboundFilter = FALSE NoNullCheck = FALSE AnyoneOpens = FALSE
           RepIds = {1, 3, 5, 9, 10, 11}
           TrackHistory = TRUE FlowCache = "none" HostIps = {"x"} HostPorts = {1}
